@@ -343,7 +343,53 @@ where
     res.and_then(|_| parse_date(out, out_tz, date, &pat[1..]))
 }
 
+/// The ways of taking or leaving each optional part at the top level of
+/// a pattern, the fullest first. Matching an optional part is greedy, so
+/// in `day[ year][ hour24:min]` the hour of `Jan 1 12:30` would be taken
+/// for the year and the pattern would fail, although it matches without
+/// a year.
+fn alternatives(pat: &[DatePattern]) -> Vec<Vec<DatePattern>> {
+    let mut out: Vec<Vec<DatePattern>> = vec![vec![]];
+    for part in pat {
+        match part {
+            DatePattern::Optional(inner) if out.len() <= 8 => {
+                let mut with: Vec<Vec<DatePattern>> = out.clone();
+                for alt in with.iter_mut() {
+                    // still optional as a whole, so this stays the
+                    // greedy reading
+                    alt.push(DatePattern::Optional(inner.clone()));
+                }
+                with.extend(out);
+                out = with;
+            }
+            other => {
+                for alt in out.iter_mut() {
+                    alt.push(other.clone());
+                }
+            }
+        }
+    }
+    out
+}
+
 fn attempt(
+    now: DateTime<Local>,
+    date: &[DateToken],
+    pat: &[DatePattern],
+) -> Result<GenericDateTime, (String, usize)> {
+    let mut first_err = None;
+    for alt in alternatives(pat) {
+        match attempt_exactly(now, date, &alt) {
+            Ok(res) => return Ok(res),
+            Err(e) => {
+                first_err.get_or_insert(e);
+            }
+        }
+    }
+    Err(first_err.expect("a pattern has at least one reading"))
+}
+
+fn attempt_exactly(
     now: DateTime<Local>,
     date: &[DateToken],
     pat: &[DatePattern],
